@@ -126,6 +126,11 @@ func (ek *EncryptedKey) DecryptSymmetricKey(cert *tls.Certificate) (cipher.Block
 
 	switch pk := cert.PrivateKey.(type) {
 	case *rsa.PrivateKey:
+		if pk == nil {
+			// A key store may hand out its certificate without a key.
+			return nil, fmt.Errorf("no private key available for decoding symmetric key")
+		}
+
 		var h hash.Hash
 
 		if ek.EncryptionMethod.DigestMethod == nil {
